@@ -36,7 +36,7 @@ func runC09(c *Ctx) {
 	c.Rule("C09.O3", "E10,E4", "flush: chunked terminator \"0\\r\\n\" (k \": \" v \"\\r\\n\")* \"\\r\\n\"; identity mode never writes pending body before pending head", 2)
 	c.Rule("C09.O4", "E4", "checkChunked: chunked=true is followed by delete(Content-Length) and Transfer-Encoding: chunked; fallback needs ProtoAtLeast(1,1), no Content-Length, status not 204/304; eoncodeHead emits Content-Length only when !chunked", 3)
 	c.Rule("C09.O5", "E4", "eoncodeHead / checkChunked: flag tested first and set before any emission", 2)
-	c.Rule("C09.O6", "nil-flow", "a value bound by `v, ok := x.(T)` is dereferenced only on paths dominated by ok", 10)
+	c.Rule("C09.O6", "nil-flow", "a value bound by `v, ok := x.(T)` is dereferenced only on paths dominated by ok", 40)
 	c.Rule("C09.O8", "E4", "Content-Length accounting: Write adds len(data) to bodyWritten at most once per call and on every path that accepts the bytes; writeChunk is only reached with a non-empty chunk (an empty one would encode the terminating chunk)", 3)
 	c09Accounting(c)
 	c.Rule("C09.O9", "E4", "the head is encoded only after the framing was decided: every call of eoncodeHead is dominated (in its function, or at every call of its function) by WriteHeader and checkChunked, so no entry point (Write, WriteString, ReadFrom, Flush, the final flush) emits a head without status line or with the wrong framing fields", 4)
@@ -45,7 +45,7 @@ func runC09(c *Ctx) {
 	c09HeadAndRaw(c)
 	c.Rule("C09.O12", "E4,E6", "WriteHeader keeps a Content-Length header only when it parsed without error to a value >= 0: every path from the parse that does not delete the field carries both outcomes", 1)
 	c09KeepsValidLength(c)
-	c.Rule("C09.O7", "E2-ext", "a buffer from Malloc(n), n != 0, is truncated or filled before it is the destination of Append/AppendString", 10)
+	c.Rule("C09.O7", "E2-ext", "a buffer from Malloc(n), n != 0, is truncated or filled before it is the destination of Append/AppendString", 20)
 
 	write := c.Fn("C09.O1", "(*nbhttp.Response).Write")
 	chunk := c.Fn("C09.O1", "(*nbhttp.Response).writeChunk")
